@@ -168,9 +168,9 @@ def check_schema(run, decls, r, tag):
             for k in range(nframes):
                 mode = ["zero", "min", "max", "asym"][k] if k < 4 else "random"
                 vals = {nm: gen_leaf_value(r, t, sch, mode) for nm, _, _, t, _ in leaves}
-                for nm, (msig, cnt) in muxed.items():
-                    # cantools refuses frames whose multiplexer value selects no signal
-                    vals[dbc_name(msig)] = vals[dbc_name(msig)] % cnt
+                for msig in {ms for ms, _ in muxed.values()}:
+                    # cantools refuses frames whose multiplexer value selects no signal at all
+                    vals[dbc_name(msig)] = vals[dbc_name(msig)] % max(c for ms, c in muxed.values() if ms == msig)
                 data = canpack.pack(leaves, vals, m["length"])
                 case_f = dict(case_m, values=vals, frame=data)
                 try:
@@ -249,7 +249,7 @@ def run(run):
         if not run.mine(i):
             continue
         r = run.rng("schema", i)
-        decls = cansch.gen_can_schema(r)
+        decls = cansch.gen_can_schema(r, second_bindings=True)
         check_schema(run, decls, r, i)
 
 
